@@ -377,6 +377,7 @@ fn call_allocs(ord: u64) {
                         let layout = Layout::from_size_align(size, 8).unwrap();
                         let p = if op == b'a' { alloc(layout) } else { alloc_zeroed(layout) };
                         assert!(!p.is_null());
+                        std::ptr::write_volatile(p, 7); // keep the allocation observable to the optimiser
                         stack[top] = (p, size);
                         top += 1;
                     }
